@@ -49,3 +49,45 @@ def omegaKoyamaShipped (N : Nat) (B Asq : Nat → α) (k : α) : α :=
 `ω_id` and the quadrature values `ω_τ` as parameters -/
 def omegaNFJC (N : Nat) (wτ : Nat → α) (e base : α) : α :=
   (sumTo (N - 2) fun t => ofNat (N - (t + 2)) * (wτ (t + 2) - powN e (t + 2))) * (ofNat 2 / ofNat N) + base
+
+/-! ### DiscreteKoyama: constructor decision and kernel parameters (`__init__`, `kernel_base`, `koyama_kernel_fourier`)
+The bending-energy root solve (`cos_avg`, `scipy.optimize.root`) is external: `cos1 = l/lp - 1` and `cos2` enter as values. -/
+
+/-- `lp_min = 4 l^3 / (4 l^2 - sigma^2)` -/
+def koyamaLpMin (σ l : α) : α := (ofNat 4 * powN l 3) / (ofNat 4 * powN l 2 - powN σ 2)
+
+section
+variable [LT α] [DecidableLT α]
+/-- the constructor's checks: `ValueError` iff `l <= sigma/2` or `lp < lp_min`; `true` = accepted -/
+def koyamaCtorOK (σ l lp : α) : Bool :=
+  if σ / ofNat 2 < l then (if lp < koyamaLpMin σ l then false else true) else false
+/-- the near-freely-jointed branch is taken iff `(lp - lp_min)/lp_min < 0.001` -/
+def koyamaLinearised (σ l lp : α) : Bool := if (lp - koyamaLpMin σ l) / koyamaLpMin σ l < dec 1 3 then true else false
+end
+
+/-- `kernel_base(n)`: second and fourth moments `(r2, r4)` of the separation of two sites `n` bonds apart -/
+def koyamaBase (l cos1 cos2 : α) (n : Nat) : α × α :=
+  let q := -cos1
+  let p := (ofNat 3 * cos2 - ofNat 1) / ofNat 2
+  let nn : α := ofNat n
+  let one : α := ofNat 1
+  let r1q := (one + q) / (one - q)
+  let D0 := nn * nn * powN r1q 2
+  let D1 := D0 - nn * (one + (ofNat 2 * q / powN (one - q) 3) * (ofNat 6 + ofNat 5 * q + ofNat 3 * q * q) - ofNat 4 * p / (one - p) * powN r1q 2)
+  let D2 := D1 + ofNat 2 * q / powN (one - q) 4 * (ofNat 4 + ofNat 11 * q + ofNat 12 * q * q)
+  let D3 := D2 - ofNat 4 * p / (one - p) * (one + ofNat 8 * q / powN (one - q) 3 + p / (one - p) * powN r1q 2)
+  let c8 := powN q n * ofNat 8 * q / powN (one - q) 3
+  let D4 := D3 - c8 * (nn * (one + ofNat 3 * q))
+  let D5 := D4 - c8 * ((one + ofNat 2 * q + ofNat 3 * q * q) / (one - q))
+  let D6 := D5 - c8 * (-(ofNat 2) * p / powN (q - p) 2 * (nn * (one - q) * (q - p) + ofNat 2 * q * q - q * p - p))
+  let D7 := D6 - ofNat 6 * powN q (2 * n + 2) / powN (one - q) 4
+  let D8 := D7 + powN p n * (ofNat 4 / (one - p) * (one + ofNat 8 * q / powN (one - q) 3 - powN r1q 2 * (one - p / (one - p))))
+  let D9 := D8 - powN p n * (ofNat 16 * q * q / powN (one - q) 3 * (one / powN (q - p) 2) * (q + q * q - ofNat 2 * p))
+  let D := D9 * (ofNat 2 / ofNat 3)
+  let r2 := nn * l * l * ((one - cos1) / (one + cos1) + ofNat 2 * cos1 / nn * (one - powN (-cos1) n) / powN (one + cos1) 2)
+  (r2, r2 * r2 + l * l * l * l * D)
+
+/-- `C`, `B`, `A²` of `koyama_kernel_fourier` from the two moments -/
+def koyamaParams (r2 r4 : α) : α × α × α :=
+  let C := sqrt (dec 5 1 * (ofNat 5 - ofNat 3 * r4 / (r2 * r2)))
+  (C, sqrt (C * r2), r2 * (ofNat 1 - C) / ofNat 6)
